@@ -81,6 +81,8 @@ def binop(I, op, a, b):
     from . import peg
     if isinstance(a, peg.PE) or isinstance(b, peg.PE):
         return peg.binop(op.__class__.__name__, a, b)
+    if isinstance(op, ast.BitOr) and isinstance(a, dict) and isinstance(b, dict):
+        return {**a, **b}
     if isinstance(op, ast.Div) and (isinstance(a, PathVal) or isinstance(b, PathVal)):
         import os.path as _osp
         x, y = (v.path if isinstance(v, PathVal) else v for v in (a, b))
@@ -861,6 +863,10 @@ def value_attr(I, obj, name):
             return obj.qual.rsplit(".", 1)[-1]
     if isinstance(obj, Builtin) and name == "__doc__":
         return "<doc>"
+    if isinstance(obj, Builtin) and name == "__name__":
+        return obj.name
+    if isinstance(obj, Builtin) and (obj.name + "." + name) in I.builtins:
+        return I.builtins[obj.name + "." + name]          # dict.fromkeys, ...
     raise SymRaise("AttributeError", f"{type(obj).__name__} value has no attribute {name}")
 
 
@@ -898,31 +904,48 @@ def make_builtins(I):
             acc = binop(I, ast.Add(), acc, x)
         return acc
 
-    def b_min(*a, key=None, default=None):
+    _NODEF = object()
+
+    def _extreme(which, a, key, default):
         items = iterate(I, a[0]) if len(a) == 1 else list(a)
+        if not items:
+            if default is not _NODEF:
+                return default
+            raise SymRaise("ValueError", f"{which} of empty sequence")
+        op = ast.Lt if which == "min" else ast.Gt
         if key is not None:
             keys = [I.call(key, [x], {}) for x in items]
-            ks = [to_expr(k) for k in keys]
-            if all(k.is_number for k in ks):
-                i = min(range(len(ks)), key=lambda j: ks[j])
-                return items[i]
-            # symbolic keys: use the ordering facts supplied by the rule (I.positive)
-            for i in range(len(ks)):
-                if all(i == j or compare(I, ast.LtE() if i < j else ast.Lt(), ks[i], ks[j]) is True for j in range(len(ks))):
+            if all(_alg(k) and to_expr(k).is_number for k in keys):
+                ks = [to_expr(k) for k in keys]
+                best = 0
+                for j in range(1, len(ks)):
+                    if (ks[j] < ks[best]) if which == "min" else (ks[j] > ks[best]):
+                        best = j
+                return items[best]
+            # symbolic keys: use the ordering facts supplied by the rule (I.positive); the first extreme one wins ties
+            for i in range(len(keys)):
+                if all(i == j or compare(I, (ast.LtE if which == "min" else ast.GtE)() if i < j else op(), keys[i], keys[j]) is True
+                       for j in range(len(keys))):
                     return items[i]
-            raise AnalysisError("min with key over symbolic values whose order is not known")
-        if not items:
-            raise SymRaise("ValueError", "min of empty sequence")
-        es = [to_expr(x) for x in items]
-        return _minmax(sp.Min, es)
+            raise AnalysisError(f"{which} with key over symbolic values whose order is not known")
+        if all(isinstance(x, str) for x in items):
+            return (min if which == "min" else max)(items)
+        if any(isinstance(x, (tuple, list)) for x in items):
+            best = items[0]
+            for x in items[1:]:
+                r = compare(I, op(), x, best)
+                if r is True:
+                    best = x
+                elif r is not False:
+                    raise AnalysisError(f"{which} over sequences whose order is not known")
+            return best
+        return _minmax(sp.Min if which == "min" else sp.Max, [to_expr(x) for x in items])
 
-    def b_max(*a, key=None):
-        items = iterate(I, a[0]) if len(a) == 1 else list(a)
-        if key is not None:
-            raise AnalysisError("max with key")
-        if not items:
-            raise SymRaise("ValueError", "max of empty sequence")
-        return _minmax(sp.Max, [to_expr(x) for x in items])
+    def b_min(*a, key=None, default=_NODEF):
+        return _extreme("min", a, key, default)
+
+    def b_max(*a, key=None, default=_NODEF):
+        return _extreme("max", a, key, default)
 
     def b_abs(x):
         return _map1(I, sp.Abs)(x)
@@ -1122,8 +1145,14 @@ def make_builtins(I):
     reg("tuple", lambda x=(): tuple(iterate(I, x)))
     reg("list", lambda x=(): list(iterate(I, x)))
     reg("dict", lambda *a, **k: dict(*[iterate(I, x) if not isinstance(x, dict) else x for x in a], **k))
+    reg("dict.fromkeys", lambda ks, v=None: {k_: v for k_ in iterate(I, ks)})
     reg("set", lambda x=(): set(iterate(I, x)))
-    reg("zip", lambda *a: [tuple(t) for t in zip(*[iterate(I, x) for x in a])])
+    def b_zip(*a, strict=False):
+        seqs = [iterate(I, x) for x in a]
+        if strict and len({len(x) for x in seqs}) > 1:
+            raise SymRaise("ValueError", "zip() arguments have different lengths")
+        return [tuple(t) for t in zip(*seqs)]
+    reg("zip", b_zip)
     reg("enumerate", lambda x, start=0: [(sp.Integer(i), v) for i, v in enumerate(iterate(I, x), concrete_int(start))])
     reg("range", lambda *a: [sp.Integer(i) for i in range(*[concrete_int(x) for x in a])])
     reg("reversed", lambda x: list(reversed(iterate(I, x))))
@@ -1140,7 +1169,7 @@ def make_builtins(I):
     reg("print", lambda *a, **k: None)
     reg("bool", lambda x=False: _pb(truth(I, x)))
     reg("callable", lambda x: isinstance(x, (Closure, Builtin, BoundMethod, ClassVal)))
-    reg("type", lambda x: x.cls if isinstance(x, SymObj) else Builtin(type(x).__name__, None))
+    reg("type", lambda x: x.cls if isinstance(x, SymObj) and x.cls is not None else Builtin(type(x).__name__, None))
     reg("map", lambda f, *its: [I.call(f, list(t), {}) for t in zip(*[iterate(I, x) for x in its])])
     reg("object", lambda: I.new_obj("object"))
     reg("round", lambda x, n=None: (sp.Integer(round(float(to_expr(x)))) if n is None else to_expr(round(float(to_expr(x)), concrete_int(n))))
@@ -1256,6 +1285,19 @@ def external(I, dotted):
         if name == "abs":
             return I.builtins["abs"]
         return Builtin(dotted, lambda a: sp.Not(truth(I, a)) if not isinstance(truth(I, a), bool) else (not truth(I, a)))
+    if dotted == "itertools.groupby":
+        def groupby(it, key=None):
+            out = []
+            for x in iterate(I, it):
+                k = I.call(key, [x], {}) if key is not None else x
+                if out and (out[-1][0] is k or compare(I, ast.Eq(), out[-1][0], k) is True):
+                    out[-1][1].append(x)
+                else:
+                    if out and compare(I, ast.Eq(), out[-1][0], k) is not False:
+                        raise AnalysisError("itertools.groupby over keys whose equality is not known")
+                    out.append((k, [x]))
+            return [(k, GenVal(g)) for k, g in out]
+        return Builtin(dotted, groupby)
     if dotted == "itertools.chain":
         return Builtin(dotted, lambda *its: [x for it in its for x in iterate(I, it)])
     if dotted == "itertools.product":
@@ -1372,6 +1414,17 @@ def _math(I, name):
             e = to_expr(x)
             return not (e in I.arrays or any(s in I.arrays for s in e.free_symbols))
         return isscalar
+    if name == "prod":
+        def prod(xs, start=1):
+            acc = to_expr(start)
+            for x in iterate(I, xs):
+                acc = binop(I, ast.Mult(), acc, x)
+            return acc
+        return prod
+    if name == "fsum":
+        return lambda xs: I.builtins["sum"].fn(xs)
+    if name == "hypot":
+        return lambda *xs: sp.sqrt(sum(to_expr(x) ** 2 for x in xs))
     if name == "array_equal":
         def array_equal(a, b):
             a = Vec(a) if isinstance(a, (list, tuple)) else a
